@@ -267,7 +267,7 @@ impl Lock<'_> {
             }
             let kind = applied_kind(&op, buf);
             let consumed = match &ra {
-                OpResult::Panic(m) if matches!(op, Op::FmtFail(..)) && m.contains("formatting trait implementation returned an error") => {
+                OpResult::Panic(m) if kind == Applied::FmtFail && m.contains("formatting trait implementation returned an error") => {
                     // std's own write_fmt panics when a Display impl fails although the stream
                     // did not; a pass-through stream may forward to it
                     self.stats.probe("failing_display_panicked_like_std");
@@ -290,7 +290,7 @@ impl Lock<'_> {
                     }
                     0
                 }
-                OpResult::Done if matches!(op, Op::FmtFail(..)) => {
+                OpResult::Done if kind == Applied::FmtFail => {
                     return Err(viol("error-swallowed", format!("{what}: the Display implementation failed but the formatted write reported success")));
                 }
                 OpResult::Done => buf.len(),
